@@ -12,6 +12,11 @@ Tie:   T — Generated/SyncShape.lean (critical-section structure of every metho
            enumerated deterministically (DFS by re-execution, virtual clock from testing/synctest).  Every history is judged
            by the Lean linearizability search against the sequential map (Spec/SeqMap.lean) and every (program, schedule) is
            replayed on the step model (Model/SyncMap.lean, Model/Cache.lean) and compared token by token.
+       T (callers) — Generated/SyncCallSites.lean: every call on a field holding a map / cache in the client connections, the
+           block-wise layer, the observation table, the limiter and the multicast tables; callers_use_atomic_forms is decided
+           over it (store-if-absent wrappers are ONE LoadOrStore, pooled messages are read inside LoadWithFunc, no Load…Store).
+       X (callers) — the wrappers themselves under the same scheduler: udp/client messageCache.Store/Load and net/blockwise
+           Do x getSentRequest / getSendingMessageCode (through add-only overlay exports), judged by the same specification.
        stress — many goroutines on the unmodified code (real RWMutex), histories ordered by an atomic counter, judged.
 """
 import glob
@@ -50,9 +55,14 @@ def build_coop(ctx):
     open(os.path.join(ov, "zz_coop_verif.go"), "w").write(
         open(os.path.join(common.HARNESS, "c14", "overlay", "zz_coop_verif.go.txt")).read())
     oj = os.path.join(ctx.work, "overlay.json")
-    json.dump({"Replace": {mp: os.path.join(ov, "map.go"),
-                           os.path.join(common.REPO, "pkg", "sync", "zz_coop_verif.go"): os.path.join(ov, "zz_coop_verif.go")}},
-              open(oj, "w"))
+    rep = {mp: os.path.join(ov, "map.go"),
+           os.path.join(common.REPO, "pkg", "sync", "zz_coop_verif.go"): os.path.join(ov, "zz_coop_verif.go")}
+    # add-only exports (overlay only, nothing in /repo) that let the harness drive the CALLERS of the map / cache themselves:
+    # udp/client's response cache wrapper and net/blockwise's look-ups of the requests being sent
+    for name, pkg in (("zz_c14_udpclient_verif.go", ("udp", "client")), ("zz_c14_blockwise_verif.go", ("net", "blockwise"))):
+        open(os.path.join(ov, name), "w").write(open(os.path.join(common.HARNESS, "c14", "overlay", name + ".txt")).read())
+        rep[os.path.join(common.REPO, *pkg, name)] = os.path.join(ov, name)
+    json.dump({"Replace": rep}, open(oj, "w"))
     exe = os.path.join(common.WORK, "ht_c14coop.test")
     with common.Lock():
         rc, out = common.sh([common.GO, "test", "-c", "-tags", "verif c14coop", "-overlay", oj, "-o", exe, "./c14"],
@@ -172,6 +182,22 @@ def gen_programs(ctx):
         for a, b in itertools.combinations_with_replacement([0, 1, 3, 5, 7, 8, 11, 12], 2):
             for sw in ("sweep", "sweep:5", "sweep:200"):
                 P.append(fmt_prog("cache", pre, [[sw], [T[a]()], [T[b]()]], ["cload:1", "load:1", "load:2", "len"]))
+    # 4b. the CALLERS: the wrappers that promise store-if-absent / read-under-lock, driven on the real code
+    #     mcache = udp/client messageCache (Store = one Cache.LoadOrStore, result "?"; Load = Cache.Load);
+    #     bwsend = net/blockwise table of requests being sent (hold = Do: register … remove, then the request is released to the
+    #              pool; copy = getSentRequest; code = getSendingMessageCode)
+    lt = 247
+    for pre, now in (([], 0), (["clos:1:5@%d" % lt], 0), (["clos:1:5@%d" % lt, "tick:300"], 300), (["clos:1:5@%d" % lt, "tick:%d" % lt], lt)):
+        v = lambda i: "%d@%d" % (i, now + lt)
+        P.append(fmt_prog("mcache", pre, [["clos:1:%s" % v(6)], ["clos:1:%s" % v(7)]], ["cload:1"]))
+        P.append(fmt_prog("mcache", pre, [["clos:1:%s" % v(6)], ["clos:1:%s" % v(7)], ["cload:1"]], ["cload:1"]))
+        P.append(fmt_prog("mcache", pre, [["clos:1:%s" % v(6)], ["clos:1:%s" % v(7)], ["clos:1:%s" % v(8)]], ["cload:1"]))
+        P.append(fmt_prog("mcache", pre, [["clos:1:%s" % v(6), "cload:1"], ["clos:1:%s" % v(7), "cload:1"]], ["cload:1"]))
+        P.append(fmt_prog("mcache", pre, [["clos:1:%s" % v(6), "clos:2:%s" % v(9)], ["clos:2:%s" % v(7), "clos:1:%s" % v(8)], ["cload:1", "cload:2"]], ["cload:1", "cload:2"]))
+    for ths in ([["hold:1:2"], ["copy:1"]], [["hold:1:2"], ["code:1"]], [["hold:1:2"], ["copy:1", "copy:1"]], [["hold:1:2"], ["code:1", "copy:1"]],
+                [["hold:1:2"], ["copy:1"], ["code:1"]], [["hold:1:2", "hold:1:3"], ["copy:1"]], [["hold:1:2"], ["hold:2:3"], ["copy:1", "copy:2"]],
+                [["hold:1:2", "hold:1:3"], ["copy:1", "code:1"]], [["hold:1:4"], ["copy:1"], ["copy:1"]]):
+        P.append(fmt_prog("bwsend", [], ths, ["copy:1", "code:1"]))
     # 5. random programs: 2-3 threads x 1-3 operations on 1-2 keys
     n = 6000 if thorough else 500
     for i in range(n):
@@ -234,6 +260,8 @@ def nontrivial(history):
 
 def clause_of(prog):
     ops = re.findall(r"[=,]([a-z0-9]+)(?=[:,\s]|$)", prog)
+    if prog.split()[1] == "bwsend":
+        return "callbacks-see-current-value"
     if "sweep" in ops:
         return "sweep-only-expired"
     if any(o in ops for o in ("los", "clos", "loswf")):
@@ -270,6 +298,8 @@ def any_bad(ctx, art, coop, prog):
     hs = sorted(set(s for _, s in runs))
     j = drive(art["driver"], "judge", hs)
     for s, v in zip(hs, j or []):
+        if "program_error" in s:
+            return None      # the reduced program is not a valid program any more (e.g. an expiry that no longer fits the clock)
         if v == "lin none" or v.startswith("violates"):
             return s, v
     return None
@@ -348,6 +378,8 @@ def explore(ctx, art, coop):
         mp, ms = minimise(ctx, art, coop, p, s)
         clause = "no-crash" if v.startswith("violates") else clause_of(mp)
         sig = "C14:%s:%s" % (clause, mp)
+        if any(x.signature == sig for x in ctx.violations):
+            continue
         ctx.violations.append(common.Violation(
             clause, sig, "history not linearizable w.r.t. the sequential map: %s  [%s]" % (ms, mp),
             {"input": [ms.split(" | ")[0] + " " + mp], "observed": ms, "judge": v, "found_in": p}))
@@ -357,6 +389,10 @@ def explore(ctx, art, coop):
     for (p, s), m in zip(runs, model):
         if m == "ok":
             ok += 1
+        elif p.split()[1] == "bwsend":
+            # getSentRequest holds the read lock across a scheduling point (the client's AcquireMessage inside the callback);
+            # the step model has no lock held across steps: these histories are judged, not replayed
+            ctx.count("wrapper schedules judged only (lock held across a scheduling point)")
         elif "r9:diverged" in s:
             ctx.count("schedules whose re-execution diverged (Go map iteration order)")
         elif p not in badprogs and len([b for b in ctx.broken if b[1] == "C14 model vs implementation"]) < 5:
@@ -403,7 +439,7 @@ def stress(ctx, art):
 
 
 def run(ctx):
-    art = common.standard_prepare(ctx, MODULES, hx=False, test=True, generated=["SyncShape.lean"])
+    art = common.standard_prepare(ctx, MODULES, hx=False, test=True, generated=["SyncShape.lean", "SyncCallSites.lean"])
     coop = build_coop(ctx)
     if coop:
         explore(ctx, art, coop)
@@ -427,7 +463,7 @@ def run(ctx):
 
 
 def replay(ctx, rep):
-    art = common.standard_prepare(ctx, MODULES, hx=False, test=True, generated=["SyncShape.lean"])
+    art = common.standard_prepare(ctx, MODULES, hx=False, test=True, generated=["SyncShape.lean", "SyncCallSites.lean"])
     coop = build_coop(ctx)
     lines = rep.get("input") or []
     if not lines or not coop:
